@@ -292,7 +292,10 @@ def run():
         keep = [c for c in cases if c['op'] == 'find_replace' or (c['op'] == 'computed' and r.random() < 0.25)]
         rest = [c for c in cases if c['op'] not in ('computed', 'find_replace')]
         r.shuffle(rest)
-        cases = keep + rest[:7000]
+        # renames onto names the schema already has (swaps, cycles, shifts): a share of them in every quick run
+        perm = [c for c in rest if c['op'] == 'rename' and any(p['tgt'] in c['schema'] for p in c['arg'])]
+        taken = {id(c) for c in perm[:600]}
+        cases = keep + perm[:600] + [c for c in rest if id(c) not in taken][:6400]
     res = pmap(replay_case, cases, chunksize=64)
     errs = harness_errors(res)
     if errs:
